@@ -71,7 +71,18 @@ Definition cl_exp_on (c : config) (ts : list txf) : bool := forallb (fun t => ne
 Definition cl_to (ts : list txf) : bool := forallb t_to_valid ts.
 Definition cl_limit (c : config) (p : pool) (s : sub) : bool :=
   count_sender p (t_sender (s_outer s)) <? c_persender c.
-Definition cl_black (ts : list txf) : bool := forallb (fun t => negb (t_blocked t)) ts.
+(** an involved account is on the blacklist: sender, recipient, real recipient, evm targets *)
+Definition listed (t : txf) : bool :=
+  bl_from t || bl_to t || bl_realto t || (bl_evm t && (bl_evmaddr t || bl_evmpara t)).
+Definition cl_black (ts : list txf) : bool := forallb (fun t => negb (listed t)) ts.
+
+(** the carried transactions belong to one chain: no two of them name different parachain titles,
+    and none with a title travels with one whose execer is not a parachain execer (ForkTxGroupPara) *)
+Definition one_chain (ts : list txf) : bool :=
+  forallb (fun a => forallb (fun b =>
+     ((t_para a <? 2)%N || (t_para b <? 2)%N || N.eqb (t_para a) (t_para b))
+     && negb ((2 <=? t_para a)%N && N.eqb (t_para b) 0)) ts) ts.
+Definition cl_para (c : config) (ts : list txf) : bool := if c_parafork c then one_chain ts else true.
 
 (** the clauses that are checked behind the forwarding shortcut *)
 Definition acc_late (c : config) (p : pool) (s : sub) (ts : list txf) : bool :=
@@ -79,15 +90,18 @@ Definition acc_late (c : config) (p : pool) (s : sub) (ts : list txf) : bool :=
 
 (** the clauses that are checked before it *)
 Definition acc_early_but (c : config) (p : pool) (s : sub) (ts : list txf) (fee exp : bool) : bool :=
-  fee && exp && cl_to ts && cl_black ts.
+  fee && exp && cl_to ts && cl_black ts && cl_para c ts.
 
-Definition acceptable (c : config) (p : pool) (s : sub) : bool :=
+(** [pt]: the pool that sets the fee tier; [p]: the pool for the other pool-dependent clauses *)
+Definition acceptable_at (c : config) (pt p : pool) (s : sub) : bool :=
   match txs_of s with
   | None => false
   | Some ts =>
       cl_entry s && acc_late c p s ts
-      && acc_early_but c p s ts (fee_meets c p s ts) (cl_exp_on c ts)
+      && acc_early_but c p s ts (fee_meets c pt s ts) (cl_exp_on c ts)
   end.
+
+Definition acceptable (c : config) (p : pool) (s : sub) : bool := acceptable_at c p p s.
 
 Fixpoint insert_n (x : N) (l : list N) : list N :=
   match l with
